@@ -5,7 +5,7 @@ import os
 from .model import AnalysisError
 from .report import VERIF
 from .callgraph import closure
-from .rules import r1_resolve, r2_none, r3_ctor, r9_purity, r4_predicates, r5_arghandler, r6_dispatch, r7_binary, r8_accessors, r_list, r10_args, r11_symbolic
+from .rules import r1_resolve, r2_none, r3_ctor, r9_purity, r4_predicates, r5_arghandler, r6_dispatch, r7_binary, r8_accessors, r_list, r10_args, r11_symbolic, r16_tables, r15_closed, r14_interp
 
 _anch = None
 
@@ -376,3 +376,262 @@ def c_dev14(run):
 
 
 CHECKS['DEV14'] = c_dev14
+
+
+NUMERIC_NOTE = ' The numerically quantified clauses of the property (tolerances, behaviour for all angles) are not decided.'
+
+
+def _scope_rules(run, pid, r1=True, r2=True, r9=True):
+    fs = scope(run, pid)
+    if r2:
+        r2_none.run_r2(run, fs)
+    if r1:
+        r1_resolve.run_r1(run, fs)
+    if r9:
+        # operators and functions in the scope of the property must not modify their operands: an in-place shortcut makes
+        # every law that reuses an operand (X**-1 * X, (X*Y)*p, q.interp(..) twice) fail
+        r9_purity.run_r9(run, run.prog.analysed_functions(), report_only={f.key for f in fs})
+    return fs
+
+
+def c01(run):
+    r16_tables.tables_rot(run)
+    r16_tables.rotation_words(run)
+    r16_tables.tables_frames(run)
+    r15_closed.check_unchecked_sites(run)
+    r15_closed.check_unitquaternion_ctor(run)
+    r14_interp.check_slerp_forms(run)
+    r14_interp.check_uq_interp_forms(run)
+    # T16 q2r and the quaternion normaliser
+    r16_tables.check_matrix_fn(run, 'base/quaternions:q2r', 'q2r', r16_tables_q2r())
+    r16_tables.check_expr_fn(run, 'base/quaternions:unit', 'unit quaternion', 'P0 / norm(P0)')
+    r16_tables.tables_c02(run)
+    _scope_rules(run, 'C01')
+    run.floor('R16', 35)
+    run.floor('R15c', 50)
+    run.floor('R12', 8)
+    run.explanation = ('Closure, structural part: (1) R16 tables -- the literal matrices of rotx/roty/rotz/rot2 equal the rotation '
+                       'matrices entry by entry; rodrigues/angvec2r equal I + sin t K + (1 - cos t) K K with K = skew of the '
+                       'normalised axis; trexp/trexp2 equal the closed form rt2tr(R, V t); oa2r/trnorm stack unit(o x a), '
+                       'unit(a x (o x a)), unit(a) as columns (every column normalised after the cross products) and keep the '
+                       'translation; q2r equals the unit-quaternion monomial table; structured inverses are [[R^T, -R^T t],[0,1]] '
+                       'on fresh zeros; homogeneous wrappers write only the translation column and the corner 1. (2) R12 -- '
+                       'rpy2r/eul2r multiply axis rotations in the documented order. (3) R15c -- at every one of the ~60 '
+                       'check=False / norm=False construction sites the stored value comes from a closed producer (those '
+                       'functions, @ of members, .T, matrix_power, helpers applying them); an element-wise + - * / result '
+                       'flowing into an unchecked constructor is a violation. (4) R13 -- UnitQuaternion stores only '
+                       'normalised quaternions unless norm=False; slerp / UnitQuaternion.interp return endpoints, the '
+                       'spherical weighted sum, or go through the normalising constructor.' + NUMERIC_NOTE)
+    run.trust(*STATIC_TRUST)
+
+
+def r16_tables_q2r():
+    s, x, y, z = 'P0[0]', 'P0[1]', 'P0[2]', 'P0[3]'
+    return [['1 - 2*(%s**2 + %s**2)' % (y, z), '2*(%s*%s - %s*%s)' % (x, y, s, z), '2*(%s*%s + %s*%s)' % (x, z, s, y)],
+            ['2*(%s*%s + %s*%s)' % (x, y, s, z), '1 - 2*(%s**2 + %s**2)' % (x, z), '2*(%s*%s - %s*%s)' % (y, z, s, x)],
+            ['2*(%s*%s - %s*%s)' % (x, z, s, y), '2*(%s*%s + %s*%s)' % (y, z, s, x), '1 - 2*(%s**2 + %s**2)' % (x, y)]]
+
+
+def c02(run):
+    r16_tables.tables_c02(run)
+    r16_tables.check_vector_fn(run, 'base/quaternions:conj', 'conj', ['P0[0]', '-P0[1:4]'])
+    r16_tables.check_vector_fn(run, 'base/quaternions:qqmul', 'qqmul',
+                               ['P0[0]*P1[0] - dot(P0[1:4], P1[1:4])', 'P0[0]*P1[1:4] + P1[0]*P0[1:4] + cross(P0[1:4], P1[1:4])'])
+    r16_tables._qpow(run)
+    r7_binary.run_r7(run, helpers=True, dunders=False)
+    _scope_rules(run, 'C02')
+    run.floor('R16', 4)
+    run.floor('R15', 20)
+    run.explanation = ('Group laws, structural part: composition lambdas multiply left then right (x @ y, qqmul(x, y)); division is '
+                       'composition with right.inv() / conj(y); ** folds with matrix_power / the qpow fold (|n| Hamilton products '
+                       'from the identity, conjugate for negative n); prod folds left to right from the identity; the structured '
+                       'inverses trinv/trinv2/SE2.inv are [[R^T, -R^T t],[0,1]], SO(n).inv is the transpose, unit-quaternion inverse '
+                       'is the conjugate, twist inverse is negation and twist composition is log(exp(x) exp(y)); conj and qqmul '
+                       'equal their term tables including the cross-product operand order; the broadcasting helpers use both '
+                       'operands in order (R7).' + NUMERIC_NOTE)
+    run.trust(*STATIC_TRUST)
+
+
+def c04(run):
+    r16_tables.tables_c04(run)
+    r16_tables.check_trlog_dependence(run)
+    r10_args.run_r10(run, [run.prog.func(k) for k in ('twist:Twist3.Rx', 'twist:Twist3.Ry', 'twist:Twist3.Rz')])
+    _scope_rules(run, 'C04')
+    run.floor('R13', 40)
+    run.explanation = ('Representations agree, structural part: every named constructor shared by SO3, SE3 and UnitQuaternion reduces to '
+                       'the same base primitive with unit/order/t threaded (sibling cross-check); the half-angle quaternions of '
+                       'UnitQuaternion.Rx/Ry/Rz put sin(a/2) in the right slot; conversions route through r2q / q2r / r2t / log / exp; '
+                       'twist constructors declare conversion from the matching SE class; unit-quaternion equality uses the '
+                       'double-cover form (q == -q) through isequal(unitq=True); the unit dual quaternion of an SE3 is '
+                       '(UnitQuaternion(R), 0.5 Pure(t) real) with that operand order and converts back through 2 d conj(r); the '
+                       'SO2->SE2, SO3->SE3 and SE2->SE3 embeddings write the expected blocks; in the logarithm used by the pose<->twist '
+                       'conversions every non-trivial return of the SO(3) branch depends on off-diagonal entries of R (the axis is '
+                       'not recoverable from the diagonal alone).' + NUMERIC_NOTE)
+    run.trust(*STATIC_TRUST)
+
+
+def c05(run):
+    r16_tables.rotation_words(run)
+    r16_tables.tables_c05(run)
+    for k in r10_args.EXTRACTORS:
+        r10_args.check_extraction_units(run, run.prog.func(k))
+    r10_args.check_order_tables(run)
+    fl = anchors(run, 'C05')
+    r10_args.run_r10(run, fl)
+    prog = run.prog
+    for k in ('pose3d:SO3.eul', 'pose3d:SO3.rpy', 'quaternion:UnitQuaternion.rpy', 'quaternion:UnitQuaternion.eul', 'pose2d:SE2.xyt', 'pose2d:SO2.theta'):
+        r8_accessors.check_accessor(run, prog.func(k))
+    r16_tables.check_expr_fn(run, 'base/transforms2d:xyt2tr', 'xyt2tr is covered by the slot table', 'T') if False else None
+    r16_tables._trot2(run)
+    _scope_rules(run, 'C05')
+    run.floor('R12', 8)
+    run.floor('R16', 10)
+    run.explanation = ('Angle sets, structural part: rpy2r builds Rz(yaw)Ry(pitch)Rx(roll) for zyx|vehicle, Rx Ry Rz for xyz|arm, Ry Rx Rz '
+                       'for yxz|camera and eul2r builds Rz Ry Rz (rotation words over the packed angle vector); rpy2r and tr2rpy accept '
+                       'the same order names and reject others; every extraction function scales by 180/pi exactly under unit==deg '
+                       'and every constructor converts through getunit exactly once (unit typestate); the singular branch of tr2eul '
+                       'is the general formula specialised at phi = 0 and flip selects the second solution; class accessors thread '
+                       'unit/order/flip identically in the single- and multi-valued branches; xyt2tr/tr2xyt use the same slots; '
+                       'tr2angvec returns (norm, unit vector) of the rotation vector. The atan2/asin formulas of tr2rpy and behaviour '
+                       'within 1e-12 of the singularities are not decided.')
+    run.trust(*STATIC_TRUST)
+
+
+def c06(run):
+    r16_tables.tables_c06(run)
+    r16_tables.check_expr_fn(run, 'base/quaternions:qvmul', 'qvmul sandwich', 'qqmul(P0, qqmul(pure(P1), conj(P0)))[1:4]',
+                             alts=('qqmul(qqmul(P0, pure(P1)), conj(P0))[1:4]',))
+    _scope_rules(run, 'C06')
+    run.floor('R16', 18)
+    run.explanation = ('Points, routing part only: in SMPose.__mul__ the operands are never rebound to a transformed value; the point is '
+                       'normalised by getvector; SE(n) routes are h2e(A @ e2h(v)) and SO(n) routes A @ v under the matching isSE/isSO '
+                       'guards, for single and multi-valued poses and for N-column arrays (column i with pose i); non-conforming '
+                       'arrays raise; homtrans/h2e/e2h have the lift / project forms; the unit-quaternion routes go through '
+                       'qvmul = q (0,v) conj(q) and the unit-dual-quaternion route is the sandwich with Pure(v). Numerical equality of '
+                       'the routes (in particular of the dual-quaternion route) is not decided.')
+    run.trust(*STATIC_TRUST)
+
+
+def c11(run):
+    r14_interp.run_r14(run)
+    _scope_rules(run, 'C11')
+    run.floor('R14', 25)
+    run.explanation = ('Interpolation, structural part: every value-returning path of trinterp, slerp and UnitQuaternion.interp has passed '
+                       '0 <= s <= 1 (or an endpoint equality s == 0 / s == 1) with the false edge raising; under shortest and dot < 0 '
+                       'both the quaternion and the dot product are negated and the interpolation angle is computed after that '
+                       'flip; slerp returns only endpoints or the spherical weighted sum (a linear blend without normalisation is a '
+                       'violation); UnitQuaternion.interp forms the equivalent weighted sum and returns through the normalising '
+                       'constructor; trinterp feeds slerp with start first and end second (identity when start is omitted), '
+                       'interpolates the translation linearly and rebuilds with rt2tr(q2r(.), .); trinterp2 uses one linear form for '
+                       'angle and translation; SMPose.interp routes by dimension and maps vector s / sequence poses element-wise. '
+                       'Constant-rate and fixed-axis behaviour as numerical statements are not decided.')
+    run.trust(*STATIC_TRUST)
+
+
+def c12(run):
+    r16_tables.tables_c12(run)
+    r16_tables.check_routes(run, r16_tables.ROUTES_C12)
+    _scope_rules(run, 'C12')
+    run.floor('R16', 18)
+    run.floor('R15', 10)
+    run.explanation = ('Quaternion algebra, term tables only: matrix(q) equals the left-multiplication table; conj, pure, inner, qnorm, '
+                       'q2v/v2q have their slot forms; qqmul equals [s1 s2 - v1.v2, s1 v2 + s2 v1 + v1 x v2] including the operand '
+                       'order of the cross product; qvmul is the sandwich q (0,v) conj(q); dot/dotb equal 1/2 [-qv.w, (q0 I -/+ '
+                       'skew(qv)) w]; q2r equals the monomial table; qpow is a correct fold (linear, or square-and-multiply with the '
+                       'squaring step) from the identity with conjugation for negative exponents; the dual-quaternion product is '
+                       '(l.r r.r, l.r r.d + l.d r.r) with non-commutative operand order, its 8x8 matrix is [[R,0],[D,R]], conj/vec/'
+                       'norm have their forms; the class operators route to these functions. The universally quantified identities '
+                       '(associativity, norm multiplicativity, exp/log) and vvmul are not decided.')
+    run.trust(*STATIC_TRUST)
+
+
+def c13(run):
+    r16_tables.tables_c13(run)
+    r16_tables.check_routes(run, [
+        ('pose3d:SE3.Ad', 'adjoint of the pose', ['adjoint(self.A)'], 'return'),
+        ('pose3d:SE3.jacob', 'velocity Jacobian', ['tr2jac(self.A, samebody=False)'], 'return'),
+        ('pose3d:SE3.delta', 'differential motion between poses', ['tr2delta(self.A, X2.A)'], 'return'),
+        ('pose3d:SE3.Delta', 'pose from differential motion', ['cls(delta2tr(d), check=False)'], 'return'),
+        ('twist:Twist3.Ad', 'adjoint through the exponential', ['self.SE3().Ad()'], 'return'),
+    ], rule='R16')
+    _scope_rules(run, 'C13')
+    run.floor('R16', 20)
+    run.explanation = ('Lie-algebra maps, table part: skew (n=1, n=3) equals the antisymmetric cross-product matrix entry by entry; vex '
+                       'reads half the antisymmetric differences and vex(skew(v)) = v holds by composing the two literal tables; '
+                       'skewa writes skew(w) into the rotation block and v into the last column of a fresh zero matrix, vexa reads '
+                       'hstack(transl, vex(t2r)); cross equals its component table; adjoint is [[R, skew(t) R],[0, R]] (and '
+                       '[[R,0],[0,R]] for SO(3)), tr2jac is [[R^T, (skew(t) R)^T],[0,R^T]] / [[R^T,0],[0,R^T]], Twist3.ad is '
+                       '[[skew(w), skew(v)],[0, skew(w)]]; tr2delta forms the increment as the group word T0^-1 * T1 (T0 alone for '
+                       'one argument) and reads [transl(Td), vex(t2r(Td) - I)]; delta2tr = I + skewa(d); the SE3 methods route to '
+                       'these functions.' + NUMERIC_NOTE)
+    run.trust(*STATIC_TRUST)
+
+
+def c14(run):
+    r16_tables.tables_c14(run)
+    r16_tables._frame(run, 'base/transforms3d:trnorm', o='P0[:3, 1]', a='P0[:3, 2]', ret_plain=False)
+    r15_closed.check_unitquaternion_ctor(run)
+    _scope_rules(run, 'C14')
+    run.floor('R16', 25)
+    run.explanation = ('Normalisation, structural part: trnorm rebuilds the frame from the second and third columns as unit(o x a), '
+                       'unit(a x (o x a)), unit(a) -- every column normalised after the cross products -- stacked as columns, and keeps '
+                       'the translation; unit/unitvec/unitvec_norm divide a vector by the norm of the same vector; the unit-twist '
+                       'functions test the rotational part and scale by norm(v) when it is zero and by norm(w) / abs(w) otherwise; '
+                       'angdiff is mod(x + pi, 2 pi) - pi for x = a and x = a - b; SMPose.norm routes to trnorm / trnorm2 by dimension, '
+                       'Quaternion.unit to unit(); the UnitQuaternion constructor normalises caller data. Idempotence and identity on '
+                       'valid input to 1e-12 are not decided. Known finding: the twist .unit properties.')
+    run.trust(*STATIC_TRUST)
+
+
+def c18(run):
+    r16_tables.tables_c18(run)
+    prog = run.prog
+    r10_args.run_r10(run, [prog.func('twist:Twist3.exp'), prog.func('twist:Twist2.exp'), prog.func('twist:Twist3.Rx'),
+                           prog.func('twist:Twist3.Ry'), prog.func('twist:Twist3.Rz')])
+    for k in ('twist:SMTwist.isprismatic', 'twist:SMTwist.isrevolute', 'twist:SMTwist.isunit', 'twist:Twist3.se3', 'twist:Twist2.se2',
+              'twist:Twist3.exp', 'twist:Twist2.exp', 'twist:SMTwist.inv'):
+        r8_accessors.check_accessor(run, prog.func(k))
+    _scope_rules(run, 'C18')
+    run.floor('R16', 20)
+    run.explanation = ('Unit twists, table part: Revolute builds (v, w) = (-w x q [+ pitch w], unitvec(a)), Prismatic (unitvec(a), 0), the '
+                       'planar constructors their analogues; v/w slots, pitch = w.v, theta = |w|, pole = w x v / theta and the line of '
+                       'action Plucker(-v - pitch w, w) have their forms; exp converts theta through getunit on every path (unit '
+                       'typestate) and is SE(trexp(S * theta)) for scalar and element-wise for vector theta; se3/se2 = skewa(S); '
+                       'inverse is negation; S * k and k * S scale the twist (operator table C08); isprismatic tests the rotational '
+                       'part; multi-valued branches respect element kinds. Fixed-point and rotation-angle statements are not decided.')
+    run.trust(*STATIC_TRUST)
+
+
+def c19(run):
+    r16_tables.tables_c19(run)
+    _scope_rules(run, 'C19')
+    run.floor('R16', 20)
+    run.explanation = ('Pluecker lines, convention tables: one moment convention v = w x p in PQ, PointDir, Planes and Twist3.line; '
+                       'principal point v x w / w.w, point(lam) = pp + uw lam, closest: lam = (x - pp).uw, p = point(lam), d = |x - p|; '
+                       'one plane convention n.x + d = 0: the writer Plane.PN and the readers Plane.contains (checked by composing '
+                       'the two expressions: the residual at the defining point vanishes identically), Planes and intersect_plane; '
+                       'SE3 premultiplication by [[R, skew(-t) R],[0, R]]; equality compares unit 6-vectors; the parallelism test is '
+                       'invariant under reversing a direction (parity analysis of the normal form). Metric statements (distances, '
+                       'the line parameter of intersect_plane) are not decided.')
+    run.trust(*STATIC_TRUST)
+
+
+def c20(run):
+    r16_tables.tables_c20(run)
+    r7_binary.check_dunder_deps(run, run.prog.func('spatialvector:SpatialInertia.__add__'))
+    r3_ctor.run_r3(run, classes=['SpatialVector', 'SpatialVelocity', 'SpatialAcceleration', 'SpatialForce', 'SpatialMomentum', 'SpatialInertia'])
+    _scope_rules(run, 'C20')
+    run.floor('R16', 14)
+    run.explanation = ('Spatial vectors, table and guard part: + and - have a same-class guard and an equal-length guard that dominate '
+                       'the element-wise arithmetic and return the same class; the 6x6 motion cross-product matrix equals [[skew(w), '
+                       'skew(v)],[0, skew(w)]] with v = A[0:3], w = A[3:6] entry by entry, the motion result is vcross @ m and the '
+                       'force result -vcross^T @ f; SE3/Twist3 premultiplication applies Ad to motion vectors and Ad^T to force '
+                       'vectors; the spatial inertia is the parallel-axis block matrix with C = skew(r); inertias add both operands; '
+                       'the constructor applies its argument-form tests to the raw argument (a list of values is never coerced to a '
+                       '6xN matrix).' + NUMERIC_NOTE)
+    run.trust(*STATIC_TRUST)
+
+
+for _k, _f in (('C01', c01), ('C02', c02), ('C04', c04), ('C05', c05), ('C06', c06), ('C11', c11), ('C12', c12), ('C13', c13),
+               ('C14', c14), ('C18', c18), ('C19', c19), ('C20', c20)):
+    CHECKS[_k] = _f
